@@ -98,109 +98,162 @@ def depthList : List Loc → Nat
   | x :: xs => max (depth x) (depthList xs)
 end
 
-/-- the written text is valid INSDC and denotes the same bases and the same partial ends -/
-def writtenOk (text : String) (l : Loc) (parent : Str) : Bool :=
-  match insdcParse text.toList with
-  | some l' => denote l' parent == denote l parent && ends l' == ends l
-  | none => false
+/-- parents that separate positions: `digitParents n` has one word per base-4 digit of the
+positions 1..n, letter = that digit as A/C/G/T; two locations that read the same letters on all of
+them (and complement is a bijection on A/C/G/T) select the same positions in the same order and
+strands.  So "denotes the same bases" is judged on every parent that matters, not on one. -/
+def digitParents (n : Nat) : List Str :=
+  let letters := #['A', 'C', 'G', 'T']
+  let rec go (k fuel : Nat) (pow : Nat) : List Str :=
+    match fuel with
+    | 0 => []
+    | fuel + 1 =>
+      let w := (List.range n).map fun i => letters[((i + 1) / pow) % 4]!
+      if pow * 4 > n then [w] else w :: go (k + 1) fuel (pow * 4)
+  go 0 12 1
+
+/-- same reading on every probe parent (`want` = the readings of the case's tree) and same partial ends -/
+def sameLoc (l' : Loc) (parents : List Str) (want : List Str) (wantEnds : List (Bool × Bool)) : Bool :=
+  parents.map (denote l') == want && ends l' == wantEnds
+
+/-- verdict on a written text: `"ok"` valid INSDC with the same bases and ends; `"syntax"` the same, except
+that it is only read by the lenient recogniser (a 3′ marker stands after the end position); `"bad"` otherwise -/
+def writtenVerdict (text : String) (parents want : List Str) (wantEnds : List (Bool × Bool)) : String :=
+  let cs := text.toList
+  match insdcParse cs with
+  | some l' => if sameLoc l' parents want wantEnds then "ok" else "bad"
+  | none =>
+    match insdcLenient cs with
+    | some l' => if sameLoc l' parents want wantEnds then "syntax" else "bad"
+    | none => "bad"
+
+/-- structures sent to AddFeature for one tree: the canonical one; joins without the `Join` flag
+(poly_test.go's idiom) with merged complements; joins without the flag, every complement a wrapper
+node, under a pass-through node with arbitrary coordinates and flags.  All satisfy `Insdc.Rep · l`. -/
+def variants (l : Loc) : List PLoc :=
+  [embed l, embedV false false l,
+   { start := 7, stop := 3, five := true, three := true, subs := [embedV false true l] }]
+
+def nVariants : Nat := 3
 
 /-- clauses that fail on one tree: "P" parsed text evaluates to the INSDC reading, "F" partial flags
-kept by the parser, "W" text written from the parsed structure, "E" assembled structure evaluates to the
-INSDC reading, "V" text written from the assembled structure -/
-def failing (l : Loc) (parent : Str) (rp re : String) : List String :=
-  let want := S (denote l parent)
+kept by the parser, "W" text written from the parsed structure (lower case "w": only its strict syntax),
+"E<k>" assembled structure variant k evaluates to the INSDC reading, "V<k>"/"v<k>" text written from it -/
+def failing (l : Loc) (parent : Str) (probes : List Str) (rp : String) (res : List String) : List String :=
+  let parents := parent :: probes
+  let wantAll := parents.map (denote l)
+  let want := S (wantAll.headD [])
+  let wantEnds := ends l
+  let wv := fun (tag : String) (built : String) =>
+    match writtenVerdict built parents wantAll wantEnds with
+    | "ok" => []
+    | "syntax" => [tag.toLower]
+    | _ => [tag]
   let p := match rp.splitOn "|" with
     | ["ok", seq, struct, built] =>
       (if seq == want then [] else ["P"]) ++
-      (if (readPLoc struct).map pends == some (ends l) then [] else ["F"]) ++
-      (if writtenOk built l parent then [] else ["W"])
+      (if (readPLoc struct).map pends == some wantEnds then [] else ["F"]) ++ wv "W" built
     | _ => ["P", "F", "W"]
-  let e := match re.splitOn "|" with
-    | ["ok", seq, built] =>
-      (if seq == want then [] else ["E"]) ++ (if writtenOk built l parent then [] else ["V"])
-    | _ => ["E", "V"]
+  let e := (res.zipIdx).flatMap fun (re, k) =>
+    match re.splitOn "|" with
+    | ["ok", seq, built] => (if seq == want then [] else [s!"E{k}"]) ++ wv s!"V{k}" built
+    | _ => [s!"E{k}", s!"V{k}"]
   p ++ e
 
-/-- known-finding classes, decided on the case: which clauses each may break -/
-def allowed (l : Loc) : List (String × List String) :=
-  if hasGt l then [("C02-writer-3prime", ["W", "V"])] else []
+/-- known-finding class, decided on the case: a tree with a 3′-partial span may fail the STRICT syntax
+of its written texts (lower-case clauses), nothing else -/
+def explained (l : Loc) (clause : String) : Option String :=
+  if hasGt l && (clause.startsWith "w" || clause.startsWith "v") then some "C02-writer-3prime" else none
 
 structure TreeVerdict where
   inDom : Bool
   corr : Bool
   fails : List String
-  kf : Option String     -- all failures explained by known classes: the first class that explains one
+  kf : Option String     -- all failures explained by known classes: the class
   tag : String
   detail : String
 
-def judgeTree (parent : Str) (tree rp re : String) : TreeVerdict :=
+def judgeTree (parent : Str) (probes : List Str) (tree rp : String) (res : List String) : TreeVerdict :=
   match readLocCase tree with
   | none => { inDom := false, corr := false, fails := [], kf := none, tag := "bad-tree", detail := "bad tree " ++ tree }
   | some l =>
     let text := print l
     let mp := modelParse text parent
-    let me := modelBuild (embed l) parent
+    let me := (variants l).map fun v => modelBuild v parent
     let inDom := inRange l parent.length && arity l
-    let fails := if inDom then failing l parent rp re else []
-    let al := allowed l
-    let explained := fails.all fun c => al.any fun (_, cs) => cs.contains c
-    let kf := if fails.isEmpty || !explained then none else
-      (al.find? fun (_, cs) => fails.any cs.contains).map (·.1)
+    let fails := if inDom then failing l parent probes rp res else []
+    let allExplained := fails.all fun c => (explained l c).isSome
+    let kf := if fails.isEmpty || !allExplained then none else fails.head?.bind (explained l)
     let tag := s!"ops{opCount l}/depth{depth l}" ++ (if hasGt l then "/gt" else "") ++
-      (if hasDoubleCompl l then "/cc" else "")
-    let corr := rp == mp && re == me
+      (if hasDoubleCompl l then "/cc" else "") ++ (if text.length > 58 then "/wrapped" else "")
+    let corr := rp == mp && res == me
     { inDom, corr, fails, kf, tag,
       detail := if fails.isEmpty && corr then "" else
-        s!"tree={tree} text={S text} fails={fails} model: {mp} {me} impl: {rp} {re} denote={S (denote l parent)}" }
+        s!"tree={tree} text={S text} fails={fails} model: {mp} {me} impl: {rp} {res} denote={S (denote l parent)}" }
 
-def pairUp : List String → List (String × String)
-  | a :: b :: rest => (a, b) :: pairUp rest
-  | _ => []
+def groupsOf (k : Nat) : List String → List (List String)
+  | [] => []
+  | xs => if k == 0 then [] else
+    let rec go (fuel : Nat) (xs : List String) : List (List String) :=
+      match fuel, xs with
+      | 0, _ => []
+      | _, [] => []
+      | fuel + 1, xs => xs.take k :: go fuel (xs.drop k)
+    go xs.length xs
 
 def isHomopolymer (s : Str) : Bool :=
   match s with
   | [] => true
   | c :: cs => cs.all (· == c)
 
+def renderLoc (width : String) (parent : String) (trees : List String) : List String :=
+  "c02.batch" :: width :: toString nVariants :: parent :: trees.flatMap fun t =>
+    match readLocCase t with
+    | some l => S (print l) :: (variants l).map fun v => S (showPLoc v)
+    | none => "bad" :: List.replicate nVariants "bad"
+
 /-- cases:
-  `loc parent tree…`  : every tree printed with `Insdc.print` and embedded with `Insdc.embed`; harness op `c02.batch`
-  `text parent raw`   : raw location text through `c02.parse` (outside the quantifier: correspondence only)
-  `ploc parent struct`: raw structure through `c02.build` (outside the quantifier: correspondence only) -/
+  `loc parent tree…`        : every tree printed with `Insdc.print` (wrapped at 58 columns in the record, as GenBank
+                              does) and assembled in `nVariants` ways; harness op `c02.batch`
+  `locw width parent tree…` : the same with another wrapping width (1 = a new line after every comma)
+  `text parent raw`         : raw location text through `c02.parse` (outside the quantifier: correspondence only)
+  `ploc parent struct`      : raw structure through `c02.build` (outside the quantifier: correspondence only) -/
 def render (f : List String) : List String :=
   match f with
-  | "loc" :: parent :: trees =>
-    "c02.batch" :: parent :: trees.flatMap fun t =>
-      match readLocCase t with
-      | some l => [S (print l), S (showPLoc (embed l))]
-      | none => ["bad", "bad"]
+  | "loc" :: parent :: trees => renderLoc "58" parent trees
+  | "locw" :: width :: parent :: trees => renderLoc width parent trees
   | ["text", parent, raw] => ["c02.parse", raw, parent]
   | ["ploc", parent, p] => ["c02.build", p, parent]
   | _ => ["bad"]
 
+def judgeLoc (parent : String) (trees out : List String) : Verdict :=
+  match out with
+  | "ok" :: rs =>
+    if rs.length != (1 + nVariants) * trees.length then { corr := false, judge := some false, cls := "bad-reply", detail := "reply length" } else
+    let ps := parent.toList
+    let probes := digitParents ps.length
+    let vs := (trees.zip (groupsOf (1 + nVariants) rs)).map fun (t, g) => judgeTree ps probes t (g.headD "") (g.drop 1)
+    let dom := vs.filter (·.inDom)
+    let newFail := dom.find? fun v => !v.fails.isEmpty && v.kf.isNone
+    let knownFail := dom.find? fun v => v.kf.isSome
+    let diff := vs.find? fun v => !v.corr
+    let corr := diff.isNone
+    let triv := isHomopolymer ps || vs.all fun v => v.tag.startsWith "ops0"
+    let pre := if triv then "triv:" else ""
+    let size := if trees.length == 1 then "" else s!"batch{trees.length}/"
+    match newFail, knownFail with
+    | some v, _ => { corr, judge := some false, cls := pre ++ "FAIL" ++ "".intercalate v.fails ++ "/" ++ size ++ v.tag, detail := v.detail }
+    | none, some v => { corr, judge := some false, cls := pre ++ "kf:" ++ v.kf.getD "" ++ "/" ++ "".intercalate v.fails ++ "/" ++ size ++ v.tag,
+                        detail := (diff.map (·.detail)).getD v.detail }
+    | none, none =>
+      { corr, judge := if dom.isEmpty then none else some true,
+        cls := pre ++ size ++ (vs.head?.map (·.tag)).getD "empty", detail := (diff.map (·.detail)).getD "" }
+  | _ => { corr := false, judge := some false, cls := "bad-reply", detail := lineOf out }
+
 def judge (f out : List String) : Verdict :=
   match f with
-  | "loc" :: parent :: trees =>
-    match out with
-    | "ok" :: rs =>
-      if rs.length != 2 * trees.length then { corr := false, judge := some false, cls := "bad-reply", detail := "reply length" } else
-      let ps := parent.toList
-      let vs := (trees.zip (pairUp rs)).map fun (t, (rp, re)) => judgeTree ps t rp re
-      let dom := vs.filter (·.inDom)
-      let newFail := dom.find? fun v => !v.fails.isEmpty && v.kf.isNone
-      let knownFail := dom.find? fun v => v.kf.isSome
-      let diff := vs.find? fun v => !v.corr
-      let corr := diff.isNone
-      let triv := isHomopolymer ps || vs.all fun v => v.tag.startsWith "ops0"
-      let pre := if triv then "triv:" else ""
-      let size := if trees.length == 1 then "" else s!"batch{trees.length}/"
-      match newFail, knownFail with
-      | some v, _ => { corr, judge := some false, cls := pre ++ "FAIL" ++ "".intercalate v.fails ++ "/" ++ size ++ v.tag, detail := v.detail }
-      | none, some v => { corr, judge := some false, cls := pre ++ "kf:" ++ v.kf.getD "" ++ "/" ++ "".intercalate v.fails ++ "/" ++ size ++ v.tag,
-                          detail := (diff.map (·.detail)).getD v.detail }
-      | none, none =>
-        { corr, judge := if dom.isEmpty then none else some true,
-          cls := pre ++ size ++ (vs.head?.map (·.tag)).getD "empty", detail := (diff.map (·.detail)).getD "" }
-    | _ => { corr := false, judge := some false, cls := "bad-reply", detail := lineOf out }
+  | "loc" :: parent :: trees => judgeLoc parent trees out
+  | "locw" :: _ :: parent :: trees => judgeLoc parent trees out
   | ["text", parent, raw] =>
     let m := match (modelParse raw.toList parent.toList).splitOn "|" with
       | "ok" :: vs => "ok" :: vs
